@@ -46,6 +46,9 @@ type Revision struct {
 	XRefNum   int
 	// FlateXRef compresses the xref stream; FlateObjStm the object stream.
 	FlateXRef, FlateObjStm bool
+	// RewriteZero makes an update section carry the entry of object 0 (head of the free list) again,
+	// as a writer that maintains the free list does when it frees an object.
+	RewriteZero bool
 }
 
 // File describes a whole PDF file.
@@ -108,7 +111,7 @@ func Build(f File) Built {
 	size := 0
 	for ri, rev := range f.Revs {
 		ents := map[int]entry{}
-		if ri == 0 {
+		if ri == 0 || rev.RewriteZero {
 			ents[0] = entry{typ: 0, f1: 0, f2: 65535, used: true}
 		}
 		var packed []Obj
